@@ -241,7 +241,8 @@ Section Recv.
   (* the discard rule in handle_incoming_packet (present iff the source has it: Gen flag) *)
   Definition is_some {A : Type} (o : option A) : bool := match o with Some _ => true | None => false end.
   Definition drop_rule (st : rx) (r : drec) : bool :=
-    rx_drop_epoch0 && (r_epoch r =? RX_DROP_EPOCH) && is_some (rx_keys st) &&
+    rx_drop_epoch0 && (r_epoch r =? RX_DROP_EPOCH) &&
+    ((rx_drop_plain_app_without_keys && ContentType_eqb (r_type r) ContentType_ApplicationData) || is_some (rx_keys st)) &&
     (negb (cstate_eqb (rx_state st) Handshaking) || existsb (ContentType_eqb (r_type r)) rx_drop_types_handshaking).
 
   Definition set_state (st : rx) (c : cstate) : rx := mkRx c (rx_keys st) (rx_read_epoch st) (rx_hs st) (rx_alive st).
